@@ -174,6 +174,7 @@ class Ctl:
         self.line_hook = None        # optional callable(thread_name, filename, lineno, frame)
         self.on_quiescent = None     # optional callable() -> bool (True: something was made runnable)
         self.lines = 0
+        self.interesting = {}        # filename -> set of interesting line numbers (preemption points)
 
     # ---- logging
     def t_ms(self):
@@ -266,7 +267,10 @@ class Ctl:
                     if len(names) == 1:
                         return self.threads[names[0]]
                 c = self.strategy.choose(names, curname, where)
-                self.decisions.append([names, c, curname])
+                pp = True
+                if where[0] == 'line':
+                    pp = bool(where[1][2])
+                self.decisions.append([names, c, curname, pp])
                 return self.threads[c]
             pend = [t for t in self.threads.values() if t.state in (IDLE, BLOCKED)
                     and not isinstance(t.on, CExecutor)]      # idle pool workers wait for work for ever
@@ -404,8 +408,44 @@ class Ctl:
             self.lines += 1
             if self.line_hook is not None:
                 self.line_hook(self.current, frame.f_code.co_filename, frame.f_lineno, frame)
-            self.point('line', (frame.f_code.co_name, frame.f_lineno))
+            il = self.interesting.get(frame.f_code.co_filename)
+            self.point('line', (frame.f_code.co_name, frame.f_lineno, il is None or frame.f_lineno in il))
         return self._ltrace
+
+
+def interesting_lines(path):
+    """Source lines that touch shared state or synchronise (AST-derived from the *current* source, no
+    line numbers are hard-wired): subscripts, deletes, with/await, membership tests, attribute stores,
+    and calls of the usual mutating / synchronising methods.  Systematic exploration places preemptions
+    only before such lines (a preemption before any other line commutes with the next such line)."""
+    import ast
+    src = open(path).read()
+    tree = ast.parse(src)
+    meth = {'set', 'clear', 'cancel', 'acquire', 'release', 'put_nowait', 'get_nowait', 'task_done', 'append',
+            'pop', 'add', 'remove', 'put', 'get', 'is_set', 'is_running', 'is_closed', 'done', 'result',
+            'set_result', 'set_exception', 'flock', 'open', 'close', 'sleep', 'time', 'submit', 'call_soon_threadsafe',
+            'run_until_complete', 'run_forever', 'stop', 'wait'}
+    lines = set()
+    for node in ast.walk(tree):
+        ln = getattr(node, 'lineno', None)
+        if ln is None:
+            continue
+        if isinstance(node, (ast.Subscript, ast.Delete, ast.With, ast.AsyncWith, ast.Await, ast.AsyncFor)):
+            lines.add(ln)
+        elif isinstance(node, ast.Compare) and any(isinstance(o, (ast.In, ast.NotIn)) for o in node.ops):
+            lines.add(ln)
+        elif isinstance(node, (ast.Assign, ast.AugAssign, ast.AnnAssign)):
+            tg = node.targets if isinstance(node, ast.Assign) else [node.target]
+            if any(isinstance(t, (ast.Attribute, ast.Subscript)) for t in tg):
+                lines.add(ln)
+        elif isinstance(node, ast.Call) and isinstance(node.func, ast.Attribute) and node.func.attr in meth:
+            lines.add(ln)
+        elif isinstance(node, ast.Call) and isinstance(node.func, ast.Name) and node.func.id in ('run_coro_ts', 'sleep'):
+            lines.add(ln)
+        elif isinstance(node, ast.Attribute) and isinstance(node.value, ast.Name) and node.value.id == 'self' \
+                and node.attr.startswith('_'):
+            lines.add(ln)
+    return lines
 
 
 CTL = None  # the controller of this process (one execution per process)
